@@ -268,4 +268,19 @@ theorem exec_readpass (file : List UInt8) :
 /-- `ab\r\n` -/
 example : stepOp (.readpass [0x61, 0x62, 0x0d, 0x0a]) = .readpass (.ok (some [0x61, 0x62])) := by decide +kernel
 
+/-- `sres` on the C string of any token (with `Spec.Inet` in the place of `inet_pton` / `inet_ntop`): resolving never
+    reads outside the string and ends; the answer is `err`, `host`, or an address — and then `sock_addr_prettyprint`
+    of that address reads only inside its name block and yields a text (never `oob`, `nofuel`, or NULL). -/
+theorem exec_sres (addr : List UInt8) :
+    stepOp (.sres addr) = .sres .err ∨ stepOp (.sres addr) = .sres .host ∨
+      ∃ a text again, stepOp (.sres addr) = .sres (.addr a text again) := by
+  rcases Proofs.ParsersStep.sres_safe (cbytes addr) (Proofs.ParsersStep.cbytes_ne0 addr) with h | h | ⟨a, t, g, h⟩
+  · exact Or.inl (by simp only [stepOp, h])
+  · exact Or.inr (Or.inl (by simp only [stepOp, h]))
+  · exact Or.inr (Or.inr ⟨a, t, g, by simp only [stepOp, h]⟩)
+/-- `[`, `a.b:80`, and `/tmp/s` followed by a NUL and junk -/
+example : stepOp (.sres [0x5b]) = .sres .err ∧ stepOp (.sres "a.b:80".toUTF8.toList) = .sres .host ∧
+    stepOp (.sres "/tmp/s\x00junk".toUTF8.toList) = .sres (.addr (mkUn "/tmp/s".toUTF8.toList) "/tmp/s".toUTF8.toList true) := by
+  decide +kernel
+
 end Percival.C15
